@@ -56,7 +56,7 @@ func checkC09(w *World, r *Run) {
 	ruleSQL := r.Rule("sql-store-reports-every-removed-row-set", "F9",
 		"in sqlMetadataStore the parts returned by every removePartRows* call flow into the UnreferencedParts field of the returned result", 9)
 	ruleGC := r.Rule("gc-deletes-what-it-condemns", "F1",
-		"in the collector: stores come from partStores.All(); the candidate filter is only the age test; after Condemn returned true every path to the next candidate passes the dedup-index removal and either DeletePart in the transaction or the append to the post-commit list, whose every element gets DeletePart", 5)
+		"in the collector: stores come from partStores.All(); the candidate filter is only the age test; after Condemn returned true every path to the next candidate passes the dedup-index removal and either DeletePart in the transaction or the append to the post-commit list, whose every element gets DeletePart; a refused candidate does not end the sweep", 6)
 	ruleRecon := r.Rule("gc-reconciles-registry-with-part-rows", "F1",
 		"the reconciliation loop restores a missing registry row with the actual count, deletes a registry row whose actual count is 0 and corrects a differing ref_count to the actual count", 3)
 	ruleAll := r.Rule("all-stores-are-swept", "F9",
@@ -349,6 +349,33 @@ func checkC09GC(w *World, r *Run, rule, ruleRecon string) {
 	}
 	s1 := sinksReachable(condemn, isDeleteOrDefer, condemnedFalse, next)
 	r.Check(len(s1) == 0, rule, "runGCWithContext: condemned id → DeletePart or post-commit list", posOf(condemn), "every path deletes or defers", "a condemned part (registry row already deleted) is neither deleted nor queued for post-commit deletion on some path")
+	// a refused candidate must not end the sweep: from the not-condemned edge control returns
+	// to the loop (next candidate), it never leaves the function
+	refusedEnds := ""
+	for _, b := range condemn.Parent().Blocks {
+		for k := range b.Succs {
+			if len(b.Succs) != 2 {
+				continue
+			}
+			for _, f := range edgeFacts(b, k) {
+				if f.Kind == IsFalse {
+					if c, i := extractOf(f.Val); c == condemn && i == 0 {
+						first := b.Succs[k].Instrs[0]
+						loopHead := func(i ssa.Instruction) bool { return strings.Contains(i.Block().Comment, "rangeindex.loop") || strings.Contains(i.Block().Comment, "rangeiter.loop") || strings.Contains(i.Block().Comment, "for.loop") || strings.Contains(i.Block().Comment, "for.post") }
+						isRet := func(i ssa.Instruction) bool { _, ok := i.(*ssa.Return); return ok }
+						if isRet(first) {
+							refusedEnds = w.Pos(posOf(first))
+						} else if !loopHead(first) {
+							for _, s := range sinksReachable(first, loopHead, nil, isRet) {
+								refusedEnds = w.Pos(posOf(s))
+							}
+						}
+					}
+				}
+			}
+		}
+	}
+	r.Check(refusedEnds == "", rule, "runGCWithContext: a refused candidate does not end the sweep", posOf(condemn), "!condemned → next candidate", "when Condemn refuses a candidate (it is still referenced) the batch returns ("+refusedEnds+") instead of continuing: every unreferenced part listed after a live one is skipped on every run and never reclaimed")
 	isDedupDel := func(i ssa.Instruction) bool {
 		c, ok := i.(*ssa.Call)
 		return ok && isCallNamed(c, "DeleteByPartIds")
